@@ -246,6 +246,56 @@ def check_deferred(ctx, stats):
         shutil.rmtree(root, ignore_errors=True)
 
 
+def check_dataclass(ctx, stats):
+    """ovld.types.Dataclass ('is a dataclass'), a type outside the model: property oracle alone -- subclasscheck and a
+    real dispatch against dataclasses.is_dataclass, over decorated classes and UNDECORATED subclasses of them"""
+    import dataclasses
+    import ovld as _ov
+    from ovld.types import Dataclass
+    from ovld.mro import subclasscheck
+
+    @dataclasses.dataclass
+    class P:
+        x: int = 0
+
+    class Q(P):
+        pass
+
+    class R(Q):
+        pass
+
+    @dataclasses.dataclass
+    class S(Q):
+        y: int = 0
+
+    class N:
+        pass
+    f = _ov.Ovld(name="f")
+
+    def m_dc(x: Dataclass):
+        return "dataclass"
+
+    def m_obj(x: object):
+        return "other"
+    f.register(m_dc)
+    f.register(m_obj)
+    for cls in (P, Q, R, S, N, int):
+        exp = dataclasses.is_dataclass(cls)
+        got = bool(subclasscheck(cls, Dataclass))
+        stats["evaluations"] += 2
+        stats["dataclass_checks"] = stats.get("dataclass_checks", 0) + 2
+        if got != exp:
+            ctx.violation(f"subclasscheck({cls.__name__}, Dataclass) is {got} but dataclasses.is_dataclass says {exp}", {"dataclass": cls.__name__})
+            return
+        try:
+            r = f(cls() if cls is not int else 3)
+        except TypeError as e:
+            r = "TypeError:" + str(e)[:40]
+        if r != ("dataclass" if exp else "other"):
+            ctx.violation(f"an instance of {cls.__name__} is dispatched to {r!r} (is_dataclass: {exp})", {"dataclass": cls.__name__, "dispatch": True})
+            return
+
+
 def run(ctx):
     stats = collections.Counter()
     stats = {"evaluations": 0, "worlds": 0, "worlds_hyp": 0, "denot_checks": 0, "generic_checks": 0, "triples": 0,
@@ -258,6 +308,7 @@ def run(ctx):
         cases.append(case)
         check_case(ctx, case, stats, samples)
         check_deferred(ctx, stats)
+        check_dataclass(ctx, stats)
         if len(ctx.violations) > 20:
             break
     return {"evaluations": stats["evaluations"] + stats["denot_checks"], "distinct_nontrivial": len(stats["nontrivial"]),
